@@ -174,3 +174,18 @@ check('C16',
       'For structured assets inside larger portfolios the equivalence is checked per instance (values), the theorem covers the '
       'portfolio consisting of the structured asset.',
       'Coq proof + differential correspondence + metamorphic implementation oracle', 'DESIGN.md 5 C16')
+check('C17',
+      'Theorems: for every problem, future mask, sample costs and extended point the rows of scenario i of the extended problem '
+      'evaluate exactly as the original rows on (present of the point + future block i), i.e. the scenarios share the present '
+      'decision; on this two-stage structure, for any feasibility relation and any values: the optimum is at most the mean of the '
+      'scenario optima, at least the expected value of every present decision with feasible recourse, and equal to the deterministic '
+      'optimum when all scenarios coincide; the worst case of the robust solution is at least that of every feasible point and at '
+      'most the smallest scenario optimum. Per instance: SLP.slp_lp applied to the implementation\'s base problem, mask and sample '
+      'cost vectors is compared with the output of make_slp (costs, bounds, rows); on the implementation the two-stage optimum is '
+      'compared with the mean of independently optimised scenarios, with the expected value of fixing the present to each scenario '
+      'solution (recourse re-optimised through fix_time_window) and with the deterministic optimum for identical samples; the robust '
+      'solution\'s worst case is evaluated with cost vectors of freshly built scenario problems (create_cost_samples with and '
+      'without grid argument) against every scenario solution and the scenario optima.',
+      TB + 'That the bounds and scaled costs of the extended problem realise the two-stage reading is checked by correspondence, not '
+      'proved (index arithmetic of the duplicated future block).',
+      'Coq proof (two-stage / epigraph bounds, row structure) + differential correspondence + implementation oracle', 'DESIGN.md 5 C17')
